@@ -241,7 +241,19 @@ func (s *metricSchemaStore) Flush() error {
 	if err != nil {
 		return err
 	}
+	// NOTE: schema instance under immutable store is shared with mutable store(new field/tag key is appended
+	// into the same instance), so need write it under lock and remember how many fields/tag keys are written,
+	// only those can be marked as persisted, else field/tag key created during flushing is never persisted.
+	type written struct {
+		schema          *metric.Schema
+		fields, tagKeys int
+	}
+	var writtenSchemas []written
 	err = s.immutable.WalkEntry(func(key uint32, value *metric.Schema) error {
+		s.lock.RLock()
+		defer s.lock.RUnlock()
+
+		writtenSchemas = append(writtenSchemas, written{schema: value, fields: len(value.Fields), tagKeys: len(value.TagKeys)})
 		if !value.NeedWrite() {
 			return nil
 		}
@@ -260,11 +272,15 @@ func (s *metricSchemaStore) Flush() error {
 	}
 
 	s.lock.Lock()
-	// mark schema persisted
-	_ = s.immutable.WalkEntry(func(_ uint32, value *metric.Schema) error {
-		value.MarkPersisted()
-		return nil
-	})
+	// mark written fields/tag keys of schema persisted
+	for _, w := range writtenSchemas {
+		for idx := 0; idx < w.fields; idx++ {
+			w.schema.Fields[idx].Persisted = true
+		}
+		for idx := 0; idx < w.tagKeys; idx++ {
+			w.schema.TagKeys[idx].Persisted = true
+		}
+	}
 	s.immutable = nil
 	s.cache.Purge()
 	s.lock.Unlock()
